@@ -19,8 +19,7 @@ RULE = (
     "arguments; items given as list, tuple and generator; n_workers 5..9 with schedules that load single workers (first/last/odd: the carried "
     "sketch of pairwise merging) plus Hypothesis-drawn (items, n_workers 1..9, schedule, combination) cases. Items are dicts describing lists of keys, or plain values incl. falsy ones (0, '', b'', [], ()) (possibly "
     "empty, sharing keys, NUL/long keys), updated by list, dict-with-multiplicities or ngram calls; callbacks return generated record counts (also "
-    "through a **kwargs-dependent callback). Oracle per run: every item placed on the queue and delivered exactly once; returned tuple order "
-    "(cms, hh, hll) and classes; HyperLogLog registers == sequential sketch; n_added of cms/hh == total multiplicity; n_records == sum of callback "
+    "through a **kwargs-dependent callback). Oracle per run: every item placed on the queue and delivered exactly once; returned sketches identified by class (an undocumented tuple order is only counted); HyperLogLog registers == sequential sketch; n_added of cms/hh == total multiplicity; n_records == sum of callback "
     "returns; linear cms within the C01 bounds, log cms above the C06 lower bound, hh within C03/C04 bounds w.r.t. the whole stream. Real spawned "
     "runs (quick 1, thorough 4; a side file records (pid, item)) validate the context. Non-trivial: >= 2 workers receive items and n_workers >= 3 "
     "or odd. Distinct = distinct (items, n_workers, schedule, combination, items_as)."
@@ -77,11 +76,13 @@ def _enum_task(arg):
         combo = cbs[(combo_i + si) % len(cbs)] if combo_i < 0 else cbs[combo_i]
         case = {"items": items, "n_workers": k, "schedule": {str(w): v for w, v in sched.items()}, "combo": combo, "items_as": items_as, "cb": "kw" if si % 5 == 0 else "plain"}
         try:
-            run_case(case)
+            obs = run_case(case)
         except Violation as v:
             rec.violation(case, v.msg, v.signature)
             rec.bulk(count, nt)
             return rec
+        if not obs.get("documented_order", True):
+            rec.count("undocumented_return_order")
         count += 1
         if nontrivial(case):
             nt += 1
